@@ -73,7 +73,7 @@ def run(ctx):
     rng = ctx.rng
     ctx.lean = common.check_lean(PID, ctx.thorough)
     ctx.rule = ('ordered pairs of categories: shipped inventories (en, en_rebank, ja), pairs listed in the shipped '
-                'seen-rule files, rule closure samples, pattern-instantiated/perturbed pairs, and a conflict family '
+                'seen-rule files, rule closure samples, pattern-instantiated/perturbed pairs, every ordered pair of atomic inventory categories, and a conflict family '
                 'where several occurrences of X are bound to different values; each evaluated with seen=None, the '
                 'shipped seen sets and random seen sets, twice in-process, in a Pool worker and in fresh interpreters '
                 'with different PYTHONHASHSEED; unary tables: shipped + synthetic multi-target. non-trivial = distinct '
@@ -97,6 +97,11 @@ def run(ctx):
         pairs[lang] += [(x, y) for _, _, x, y in G.pattern_pairs(rng, pats, pool, feats, n // 2, deep=gen_cat.deep_pool(lang, rng))]
     for a, b in conflict_family(rng, ctx.budget(300, 3000)):
         pairs['en'].append((Category.parse(a), Category.parse(b)))
+    # atomic square: every ordered pair of atomic inventory categories, the diagonal included — pairs such as
+    # (LRB, LRB) or (',', ',') where two combinators derive the very same category next to a different one
+    for lang in ('en', 'ja'):
+        atomic = sorted({canonical(c) for c in inv[lang] if c.is_atomic})
+        pairs[lang] += [(Category.parse(a), Category.parse(b)) for a in atomic for b in atomic]
     # closure: results of rule application recombined
     for lang, mod in (('en', en), ('ja', ja)):
         extra = []
@@ -281,6 +286,8 @@ def run(ctx):
     sub = text_cases if len(text_cases) <= ctx.budget(4000, 40000) else rng.sample(text_cases, ctx.budget(4000, 40000))
     # always keep the conflict family
     sub += [t for t in text_cases if '[X]' in t[0][1] and '[X]' in t[0][1][t[0][1].find('[X]') + 3:]][:2000]
+    # ... and the atomic square (both sides without a slash)
+    sub += [t for t in text_cases if not any(ch in t[0][1] + t[0][2] for ch in '/\\|')][:3000]
     payload = json.dumps([t[0] for t in sub])
     env = dict(os.environ)
     procs = []
